@@ -2,7 +2,7 @@
    identity of the context-free re-keying on rows without duplicate headers. *)
 From Coq Require Import List NArith ZArith Bool Lia Arith Decimal DecimalNat DecimalPos.
 From RPFT Require Import Base.Sexp Base.PyStr Base.PyStrFacts Base.Result Base.ODict Gen.Tables Cell.Cell
-  Row.Ty Row.RowParse Row.ParseFold Row.Encodes Row.EncodesFacts.
+  Row.Ty Row.RowParse Row.RekeyFacts Row.ParseFold Row.Encodes Row.EncodesFacts.
 Import ListNotations.
 Local Open Scope N_scope.
 
@@ -94,11 +94,11 @@ Qed.
 Lemma rekey_none_acc (all : list (str * str)) : forall (cells acc : list (str * str)),
   NoDup (map fst acc ++ map fst cells) ->
   foldM (fun (acc : list (str * str)) (kv : str * str) =>
-           do k <- ctx_h2f None all (fst kv); Ok (oset str_eqb acc k (snd kv))) cells acc = Ok (acc ++ cells).
+           do k <- ctx_h2f None all (fst kv); Ok (rekey_put acc k (snd kv))) cells acc = Ok (acc ++ cells).
 Proof.
   induction cells as [|[k v] r IH]; intros acc Hnd; cbn [foldM].
   - rewrite app_nil_r. reflexivity.
-  - cbn [ctx_h2f bind fst snd]. rewrite oset_new.
+  - cbn [ctx_h2f bind fst snd]. rewrite rekey_put_new_get.
     + rewrite IH.
       * rewrite <- app_assoc. reflexivity.
       * rewrite map_app. cbn [map fst]. rewrite <- app_assoc. exact Hnd.
